@@ -359,6 +359,17 @@ func runC14(seed int64, tier string, sc *Script) map[string]any {
 				want = append(want, r.Digest.String()+"|"+r.ArtifactType+"|"+r.Annotations["i"])
 			}
 			if s == 0 && ri%3 == 0 {
+				touched := false
+				for i := range refs {
+					if refs[i].subject == 0 && pushErr[i] == nil {
+						touched = true
+					}
+				}
+				if !touched {
+					// nobody updated this subject's index through the Repository: the
+					// pre-seeded dirt is still what somebody else wrote, not ours to judge
+					continue
+				}
 				// the pre-seeded junk entry (not a stored manifest) stays listed once, never twice
 				cnt := 0
 				var filtered []string
@@ -377,7 +388,8 @@ func runC14(seed int64, tier string, sc *Script) map[string]any {
 			sort.Strings(got)
 			sort.Strings(want)
 			if strings.Join(got, ",") != strings.Join(want, ",") {
-				verdict = fmt.Sprintf("lost-update(subject=%d,got=%d,want=%d)", s, len(got), len(want))
+				verdict = fmt.Sprintf("lost-update(subject=%d,got=%d,want=%d,got=[%s],want=[%s])", s, len(got), len(want), strings.Join(got, ";"), strings.Join(want, ";"))
+				verdict = strings.ReplaceAll(verdict, " ", "_")
 			}
 		}
 		// superseded indexes are gone unless GC is skipped
